@@ -241,7 +241,7 @@ func subStackScenario(depth int, c int) *explore.Scenario {
 
 // ---- (3) delay.Publisher --------------------------------------------------------------------------------------
 
-var delaySources = []string{"none", "metadata", "ctx-for-1h", "ctx-for-0", "ctx-for-past", "ctx-until-1h", "ctx-until-past"}
+var delaySources = []string{"none", "metadata", "ctx-for-1h", "ctx-for-0", "ctx-for-past", "ctx-until-1h", "ctx-until-past", "ctx-zero-value", "ctx-until-zero-time"}
 
 func delayScenario() *explore.Scenario {
 	return &explore.Scenario{Name: "delay-publisher", C: -1, DataOnly: true, Body: func() {
@@ -287,6 +287,10 @@ func delayScenario() *explore.Scenario {
 				ctx = delay.WithContext(ctx, delay.Until(now.Add(time.Hour)))
 			case "ctx-until-past":
 				ctx = delay.WithContext(ctx, delay.Until(now.Add(-time.Hour)))
+			case "ctx-zero-value": // the zero value of Delay is documented as a zero delay
+				ctx = delay.WithContext(ctx, delay.Delay{})
+			case "ctx-until-zero-time":
+				ctx = delay.WithContext(ctx, delay.Until(time.Time{}))
 			}
 			m.SetContext(ctx)
 			batch = append(batch, m)
@@ -341,6 +345,16 @@ func delayScenario() *explore.Scenario {
 				} else {
 					has = false
 				}
+			case "ctx-zero-value", "ctx-until-zero-time":
+				// a delay IS present in the context: it wins over the generator; only the precedence is
+				// asserted for these odd values (their delayed_until is the zero time)
+				if df == "" || du == "" {
+					vs.Fail("delay-precedence", "%s: message %d carries a (zero) delay in its context but was forwarded without a delay stamp", cfg, i)
+				}
+				if gen == "present" && df == "1m30s" {
+					vs.Fail("delay-precedence", "%s: message %d carries a (zero) delay in its context but got the default generator's delay", cfg, i)
+				}
+				continue
 			}
 			if !has {
 				if df != "" || du != "" {
